@@ -433,7 +433,7 @@ func (r *run) proofStep(st tf.M) bool {
 		sigs := []tf.M{}
 		for _, sg := range br.Signatures {
 			sigs = append(sigs, tf.M{"r": hx(sg.R), "s": hx(sg.S), "v": int(sg.V), "ts": hx(sg.EncodedTimestamp)})
-			signer = append(signer, r.recover(H, sg))
+			signer = append(signer, r.recoverSigner(H, sg))
 		}
 		o["p"] = tf.M{
 			"bh": small31(bh), "items": its,
@@ -475,10 +475,10 @@ func classOf(detail string) string {
 	return "error"
 }
 
-// recover: which validator of the set, if any, does go-ethereum's Ecrecover return for this (r,s,v)
+// recoverSigner: which validator of the set, if any, does go-ethereum's Ecrecover return for this (r,s,v)
 // over SHA-256 of THAT validator's real canonical vote bytes (CometBFT's own VoteSignBytes)?
 // Returns the 1-based position in the validator set, 0 if none.
-func (r *run) recover(H int64, sg proof.TMSignature) int {
+func (r *run) recoverSigner(H int64, sg proof.TMSignature) int {
 	n := r.n
 	commit := n.Commits[H]
 	if len(sg.R) != 32 || len(sg.S) != 32 || sg.V < 27 || sg.V > 28 {
